@@ -416,3 +416,79 @@ Theorem mul_int_exact : forall d k r, d_years d = 0 -> d_months d = 0 -> d_total
   dur_mul d (VInt k) = Ok (RDur r) -> d_N r = k * d_N d /\ d_years r = 0 /\ d_months r = 0.
 Proof. exact (C10Facts.mul_int_exact_partial mul_float_exact_proved). Qed.
 Print Assumptions mul_int_exact.
+
+(* ---- THE MODEL IS THE CODE (operators).  Gen/DurationOpsFloat.v is translated WHOLE from /repo's src/pendulum/duration.py and interval.py on
+   every run by tools/vlib/pyfloat2gallina.py (each operator method once per class of `other` — int, float, Duration, plain timedelta — with
+   its isinstance tests decided from that class, CPython's int/float typing, evaluation order, every raising operation — ZeroDivisionError of
+   // % divmod and _divide_and_round, OverflowError of int -> float, the constructors — a bind; NotImplemented = RNotImpl).  The hand model
+   Model/DurationOps.v, about which every theorem above speaks, EQUALS that translation for all operands of class exactly Duration / Interval
+   (d_abs = false where the method calls total_seconds(): AbsoluteDuration operands are outside this model).
+   class_ok o: a Duration / Interval operand is not an AbsoluteDuration.  dur_method m d o / unop 3 / durlike_method m true are the entries of
+   binop / unop for a Duration resp. Interval on the left (arith_op, above: NotImplemented then becomes TypeError). *)
+From PV Require Import Spec.TdFloatMixed Gen.DurationFloat Gen.DurationOpsFloat Proofs.DurationOpsFloatFacts.
+
+(* the constructor behind + - * : Duration(seconds=<float>, years=, months=), translated from Duration.__new__ with the mixed timedelta constructor
+   of Spec/TdFloatMixed.v (CPython's accum(): float seconds, then integer days, then the half-even rounding of the left-over into the total) ... *)
+Theorem model_is_code_duration_new_fsec : forall x y mo, gen_duration_new_fsec x y mo = duration_new_fsec x y mo.
+Proof. exact gen_duration_new_fsec_eq. Qed.
+Print Assumptions model_is_code_duration_new_fsec.
+
+(* ... whose integer days add exactly: the parity that breaks a tie of the left-over is not disturbed by days * 86400 * 10^6 *)
+Theorem mixed_constructor_days_exact : forall D x,
+  td_us_of_days_fsec D x = bind (td_us_of_float_seconds x) (fun n0 => Ok (n0 + D * US_PER_DAY)).
+Proof. exact td_us_of_days_fsec_shift. Qed.
+Print Assumptions mixed_constructor_days_exact.
+
+(* _divide_and_round translated with its ZeroDivisionError = the integer translation used above, and on (int, float) = the hand model *)
+Theorem model_is_code_divide_and_round : forall a b y,
+  gen_divide_and_round_int a b = (if b =? 0 then Raise E_ZeroDivisionError else Ok (py_divide_and_round a b)) /\
+  gen_divide_and_round_float a y = divide_and_round_float a y.
+Proof. intros a b y. exact (conj (gen_divide_and_round_int_eq a b) (gen_divide_and_round_float_eq a y)). Qed.
+Print Assumptions model_is_code_divide_and_round.
+
+Theorem model_is_code_duration_add : forall d o, d_abs d = false -> class_ok o -> gen_Duration_add d o = dur_method 1 d o.
+Proof. exact gen_Duration_add_eq. Qed.
+Print Assumptions model_is_code_duration_add.
+
+Theorem model_is_code_duration_sub : forall d o, d_abs d = false -> class_ok o -> gen_Duration_sub d o = dur_method 2 d o.
+Proof. exact gen_Duration_sub_eq. Qed.
+Print Assumptions model_is_code_duration_sub.
+
+Theorem model_is_code_duration_mul : forall d o, gen_Duration_mul d o = dur_method 4 d o.
+Proof. exact gen_Duration_mul_eq. Qed.
+Print Assumptions model_is_code_duration_mul.
+
+Theorem model_is_code_duration_floordiv : forall d o, gen_Duration_floordiv d o = dur_method 5 d o.
+Proof. exact gen_Duration_floordiv_eq. Qed.
+Print Assumptions model_is_code_duration_floordiv.
+
+Theorem model_is_code_duration_truediv : forall d o, gen_Duration_truediv d o = dur_method 6 d o.
+Proof. exact gen_Duration_truediv_eq. Qed.
+Print Assumptions model_is_code_duration_truediv.
+
+Theorem model_is_code_duration_mod : forall d o, gen_Duration_mod d o = dur_method 7 d o.
+Proof. exact gen_Duration_mod_eq. Qed.
+Print Assumptions model_is_code_duration_mod.
+
+Theorem model_is_code_duration_divmod : forall d o, gen_Duration_divmod d o = dur_method 8 d o.
+Proof. exact gen_Duration_divmod_eq. Qed.
+Print Assumptions model_is_code_duration_divmod.
+
+Theorem model_is_code_duration_neg : forall d, gen_Duration_neg d = unop 3 (VDur d).
+Proof. exact gen_Duration_neg_eq. Qed.
+Print Assumptions model_is_code_duration_neg.
+
+(* Interval.<op>(other) = self.as_duration().<op>(other), as_duration() = Duration(seconds=self.total_seconds()) *)
+Theorem model_is_code_interval_ops : forall i o, d_abs i = false -> class_ok o ->
+  gen_Interval_add i o = durlike_method 1 true i o /\ gen_Interval_sub i o = durlike_method 2 true i o /\
+  gen_Interval_mul i o = durlike_method 4 true i o /\ gen_Interval_floordiv i o = durlike_method 5 true i o /\
+  gen_Interval_truediv i o = durlike_method 6 true i o /\ gen_Interval_mod i o = durlike_method 7 true i o /\
+  gen_Interval_divmod i o = durlike_method 8 true i o.
+Proof. exact gen_Interval_ops_eq. Qed.
+Print Assumptions model_is_code_interval_ops.
+
+(* the hypotheses are satisfiable: every Duration the model constructs has d_abs = false *)
+Theorem model_is_code_hyps : (forall d s us ms mi h w y mo r, duration_new d s us ms mi h w y mo = Ok r -> d_abs r = false)
+  /\ (forall x y mo r, duration_new_fsec x y mo = Ok r -> d_abs r = false).
+Proof. exact (conj duration_new_class duration_new_fsec_class). Qed.
+Print Assumptions model_is_code_hyps.
